@@ -34,6 +34,7 @@ THOROUGH = ['sse2', 'sse4_1', 'fma3_sse', 'fma4', 'avx', 'fma3_avx', 'avx2', 'fm
 
 UNARY_NAN = ['exp', 'exp2', 'exp10', 'expm1', 'log', 'log2', 'log10', 'log1p', 'sin', 'cos', 'tan', 'asin', 'acos', 'atan', 'sinh', 'cosh', 'tanh',
              'asinh', 'acosh', 'atanh', 'cbrt', 'erf', 'erfc', 'tgamma', 'lgamma', 'sqrt', 'ceil', 'floor', 'trunc', 'round', 'nearbyint', 'rint', 'abs', 'fabs']
+NANPATH = ['sin', 'cos', 'tan', 'sincoss', 'sincosc', 'erf', 'erfc']          # the functions with whole-batch tiers / scalar per-lane code (the FP-class analysis decides the others)
 ODD = ['sin', 'tan', 'asin', 'atan', 'sinh', 'tanh', 'asinh', 'atanh', 'cbrt', 'erf', 'neg', 'trunc', 'nearbyint', 'rint', 'round']
 EVEN = ['cos', 'cosh', 'abs', 'fabs']
 
@@ -231,6 +232,20 @@ def analyse(cfgname):
                                           'sincos(x).%s equals %s(x) bit for bit on this control path' % ('first' if one == 'sin' else 'second', one)))
         except Exception as e:
             out['broken_list'].append('sincos identity: %r' % (e,))
+        # (e) NaN propagation along control paths (checks/c12nan.py): every loop-free path a batch with a NaN in the tracked
+        # lane can take completes, and gives that lane a NaN -- for any NaN payload
+        from . import c12nan
+        for f in NANPATH:
+            try:
+                nr = c12nan.analyse_nan(mod, 'm_%s_%s' % (f, tn))
+            except Exception as e:
+                nr = {'broken': repr(e)}
+            if 'broken' in nr:
+                out['parity'].append(('nanpath|%s|%s' % (f, tn), False, 'analysis error %s' % nr['broken'][:120], '%s(NaN) is NaN on every control path, for every NaN payload' % f))
+                continue
+            ok = nr['paths'] >= 1 and not nr['bad'] and not nr['dropped']
+            got = '%d paths, %d give NaN; %s' % (nr['paths'], nr['nan_paths'], ('not NaN on path %s' % (nr['bad'][0][0] or '(straight)')) if nr['bad'] else (('path not followed to its end: %s%s' % (nr['dropped'][0][0][:80], ('; the branch on %s is open for some NaN payload' % nr['forks'][0]) if nr.get('forks') else '')) if nr['dropped'] else 'every path completes'))
+            out['parity'].append(('nanpath|%s|%s' % (f, tn), ok, got, '%s(NaN) is NaN on every control path a batch holding a NaN can take, for every NaN payload' % f))
         for (f, g) in IDENT:
             ff, fg = mod.functions.get('m_%s_%s' % (f, tn)), mod.functions.get('m_%s_%s' % (g, tn))
             if ff is None or fg is None:
